@@ -7,9 +7,9 @@ import VerifModel.Model.CalendarLite
     * any character outside `-0123456789.:,`            → error message, exit 1
     * split at `,`; each part split at `:`; then per part, left to right:
         - an empty field                                 → error message, exit 1
-        - one field:  `float(w)`                         (ValueError if not a float)
-        - two/three fields: `float(start)`, `float(step)` (default 1), step == 0 → exit 1,
-          `float(end)`; then
+        - one field:  `to_float(w)`                      (not a float → error message, exit 1)
+        - two/three fields: `to_float(start)`, `to_float(step)` (default 1), step == 0 → exit 1,
+          `to_float(end)`; then
             numbers: `np.round(np.arange(start, end + sign(step)·0.0001, step), 7)`
             dates  : `d = min(start, end'); while d <= max(start, end'): d = get_date(d, step)`
         - more than three fields                         → error message, exit 1
@@ -35,7 +35,7 @@ abbrev Res := Except Err
 def Res.show (f : α → String) : Res α → String
   | .ok a => f a
   | .error .exit => "ERR"
-  | .error (.raise ty) => "EXC:" ++ ty
+  | .error (.raise ty) => if ty == "Hang" then "HANG" else "EXC:" ++ ty
 
 /-- characters accepted by the first check of `parse_numbers` -/
 def allowed (c : Char) : Bool :=
@@ -118,9 +118,11 @@ def lexField (w : String) : Fld :=
     | none => .bad
     | some q => .num q
 
+/-- `to_float(word)`: `float()` with the ValueError turned into the error message (repo commit
+aace4b0; before that commit a non-float field raised) -/
 def Fld.get : Fld → Res Rat
   | .num q => .ok q
-  | _ => .error (.raise "ValueError")
+  | _ => .error .exit
 
 def rangeVals (isDate : Bool) (a s b : Rat) : Res (List Rat) :=
   if isDate then rangeDates a s b else .ok (rangeNums a s b)
